@@ -129,9 +129,9 @@ type Exec struct {
 	Steps         int
 	Threads       int
 	Unmodelled    string // the execution met something the runtime model does not cover: it must not be judged
-	Diverged      bool // a recorded prefix could not be followed: executions are not reproducible (state survives between executions)
-	UsedSelect    bool // a select statement was executed (the reductions of mode A do not model its clause choice)
-	SleepBlocked  bool // the execution was cut because every enabled thread was in the sleep set (equivalent to explored ones)
+	Diverged      bool   // a recorded prefix could not be followed: executions are not reproducible (state survives between executions)
+	UsedSelect    bool   // a select statement was executed (the reductions of mode A do not model its clause choice)
+	SleepBlocked  bool   // the execution was cut because every enabled thread was in the sleep set (equivalent to explored ones)
 	ElisionBroken bool
 	Events        []string // optional trace (Config.Trace)
 }
